@@ -345,6 +345,89 @@ def serde_stream(tier, rng, count):
             ops += ["SER 0"]
         yield case(f"sd{n}", cfg(K=K, H=rng.choice(HASHERS), V=rng.choice(ROUTES)), ops)
 
+def serde_wide(tier, rng, count):
+    """documents of 60..300 entries (beyond any small-document special case: word-sized masks, inline buffers, a first
+    table growth) whose defect, if any, sits near a boundary: a stray key just above the count, a gap next to the end,
+    a repeat far down, counts around multiples of 8/32/64.  Compared with the model like serde_stream."""
+    for n in range(count):
+        K = rng.choice(["spur", "spur", "mini", "large"])
+        kind = rng.choice(["threaded", "threaded", "threaded", "rodeo", "reader", "resolver"])
+        m = rng.choice([63, 64, 65, 66, 96, 127, 128, 129, 130, 191, 200, 255, 256, 257, 300]) if rng.random() < 0.7 else rng.randrange(60, 301)
+        strs = [b"w%x-%d" % (i, n % 7) for i in range(m)]
+        r = rng.random()
+        if kind == "threaded":
+            raws = list(range(1, m + 1))
+            if r < 0.45:      # one key moved to just above the count (leaves a gap below it)
+                raws[rng.randrange(m)] = m + rng.randrange(1, 70)
+            elif r < 0.6:     # repeated key
+                i, j = rng.sample(range(m), 2); raws[i] = raws[j]
+            elif r < 0.7:     # the last key far away
+                raws[m - 1] = rng.choice([m + 64, m + 1000, 2 * m])
+            order = list(range(m)); rng.shuffle(order)
+            doc = "M:" + ",".join(f"{hx(strs[i])}={raws[i]}" for i in order)
+        else:
+            if r < 0.4:
+                strs.insert(rng.randrange(m // 2, m + 1), strs[rng.randrange(m)])
+            doc = "L:" + ",".join(hx(s) for s in strs)
+        ops = [f"DE {kind} {doc}", "LEN 0", "IT 0 nbl", "ST 0 bnl"]
+        for j in sorted({0, 1, m // 2, m - 2, m - 1, m, m + 1, (m | 63), (m | 63) + 1}):
+            ops.append(f"TR 0 {j}")
+        if kind != "resolver":
+            ops += [f"G 0 {hx(strs[0])}", f"G 0 {hx(strs[-1])}", f"G 0 {hx(b'absent')}"]
+        if kind in ("rodeo", "threaded"):
+            ops += [f"I 0 {hx(b'fresh-1')}", f"I 0 {hx(strs[m // 3])}", "LEN 0", "SER 0", rng.choice(["RD 0", "RS 0"]), "LEN 0", f"TR 0 {m - 1}", f"TR 0 {m}", "IT 0 bbn", "ST 0 l"]
+        elif kind == "reader":
+            ops += ["SER 0", "RS 0", "IT 0 nb"]
+        yield case(f"sw{n}", cfg(K=K, H=rng.choice(HASHERS), V=rng.choice(ROUTES)), ops)
+
+def collections_bulk(tier, rng, count):
+    """`Extend` / `FromIterator` with MANY items into an object that already holds many: size hints large enough to make
+    an implementation reserve and re-hash its tables up front (20..64 items, hints exact/low/high; the model runner is quadratic, hence no more), then every OLD and
+    new string must still be found under its key; an explicit intern loop on a twin states the expectation."""
+    for n in range(count):
+        t = rng.choice(["r", "r", "t"])
+        old = [b"o%x.%d" % (i, n % 5) for i in range(rng.choice([0, 3, 17, 28, 40, 56]))]
+        add = [b"a%x.%d" % (i, n % 3) for i in range(rng.choice([20, 31, 32, 33, 40, 64]))]
+        if rng.random() < 0.4 and old:
+            add[rng.randrange(len(add))] = rng.choice(old)
+        hint = ["exact", "low", "high", "none"][n % 4]
+        shape = ["vec", "lazy", "boxed", "refs"][(n // 4) % 4]
+        ctor = "NR" if t == "r" else "NT"
+        ops = [f"{ctor} {rng.choice([4, 64, 4096])} max {rng.choice([0, 4, 50])} {n}", f"{ctor} 4096 max 50 {n + 1}"]
+        for s_ in old:
+            ops += [f"I 0 {hx(s_)}", f"I 1 {hx(s_)}"]
+        ops.append(f"EX 0 {','.join(hx(x) for x in add)} {hint} {shape}")
+        for s_ in add:
+            ops.append(f"I 1 {hx(s_)}")
+        ops += ["EQ 0 1", "LEN 0", "LEN 1"]
+        for s_ in ([old[0], old[len(old) // 2], old[-1]] if old else []) + [add[0], add[-1]]:
+            ops += [f"G 0 {hx(s_)}", f"I 0 {hx(s_)}"]
+        ops += ["LEN 0", "EQ 0 1", f"FI {t} {hint} {','.join(hx(x) for x in (old[:40] + add))} {shape}", "EQ 2 0" if len(old) <= 40 else "LEN 2",
+                f"G 2 {hx(add[0])}", f"I 2 {hx(add[-1])}", "LEN 2", "IT 0 bnl"]
+        yield case(f"cb{n}", cfg(K=rng.choice(["spur", "large", "mini"]), H=rng.choice(HASHERS), V=rng.choice(ROUTES)), ops)
+
+def serde_full_keyspace(rng):
+    """documents holding exactly as many entries as the key type has keys (and one fewer / one more), for the four
+    containers: a FULL interner must round-trip; then interning continues (refused: no key left / accepted: one left)."""
+    n = 0
+    for K in ["cap1", "cap2", "cap3", "cap5", "micro"]:
+        cap = keycap(K)
+        for kind in ("rodeo", "reader", "resolver", "threaded"):
+            for m in (cap - 1, cap, cap + 1):
+                if m < 0:
+                    continue
+                strs = [b"f%x" % i for i in range(m)]
+                doc = ("M:" + ",".join(f"{hx(x)}={i + 1}" for i, x in enumerate(strs))) if kind == "threaded" else ("L:" + ",".join(hx(x) for x in strs))
+                ops = [f"DE {kind} {doc}", "LEN 0", f"TR 0 {max(m - 1, 0)}", f"TR 0 {m}", "IT 0 bnl"]
+                if kind != "resolver" and strs:
+                    ops += [f"G 0 {hx(strs[-1])}", f"G 0 {hx(strs[0])}"]
+                if kind in ("rodeo", "threaded"):
+                    ops += [f"I 0 {hx(b'fresh-a')}", f"I 0 {hx(b'fresh-b')}", f"I 0 {hx(strs[0] if strs else b'z')}", "LEN 0", "SER 0", "RS 0", "LEN 0"]
+                else:
+                    ops += ["SER 0"]
+                yield case(f"fk{n}", cfg(K=K, H=HASHERS[n % 6], V=ROUTES[n % 5]), ops)
+                n += 1
+
 def serde_in_place(tier, rng, count):
     """`Deserialize::deserialize_in_place` into an existing object (serde's contract: `*place = T::deserialize(d)?`):
     a refused document leaves the object as it was, an accepted one replaces it.  Monitor-only, expectations stated here."""
@@ -588,7 +671,8 @@ def iter_plans(tier, rng, count):
         if conv:
             ops.append(conv)
         for _ in range(3):
-            plan = "".join(rng.choice(["n", "b", "l", f"t{rng.randrange(0, k + 2)}"]) for _ in range(rng.randrange(1, 14)))
+            alphabet = ["n", "b", "l", f"t{rng.randrange(0, k + 2)}"] + ([f"s{rng.randrange(0, k + 2)}"] if kind == "NR" else [])
+            plan = "".join(rng.choice(alphabet) for _ in range(rng.randrange(1, 14)))
             ops.append(f"{rng.choice(['IT', 'ST'])} 0 {plan}")
         ops.append("IT 0 " + "n" * (k + 1) + "l")
         ops.append("IT 0 " + "b" * (k + 1) + "l")
